@@ -1,6 +1,7 @@
 (* Interp/Run.v — dispatcher: one case in, one observation out.
    case ::= (case ID FAMILY payload)   obs ::= (obs ID result) *)
 From Verif Require Import Base.Prelude Base.Str Interp.Sexp Interp.RunUnits Interp.RunSchema Interp.RunCodegen Interp.RunFunction.
+From Verif Require Import Interp.RunXSchema.
 Open Scope string_scope.
 
 Definition run_case (x : sexp) : sexp :=
@@ -11,6 +12,7 @@ Definition run_case (x : sexp) : sexp :=
         else if String.eqb fam "schema" then run_schema_case payload
         else if String.eqb fam "codegen" then run_codegen_case payload
         else if String.eqb fam "function" then run_function_case payload
+        else if String.eqb fam "structobj" then run_xschema_case payload
         else bad "unknown family" in
       Ls [At "obs"; id; r]
   | _ => bad "not a case"
